@@ -2,16 +2,23 @@ import BW.Model.Hooks
 import BW.Generated.HookFacts
 import Driver.Query
 import Driver.Parse
+import Driver.Stmts
 
 /-! `bwdriver hooks`: the `Q` lines of the query protocol carry the statement's tokens (`tk=`, with what
     Go's parsers make of each text) and the Statement the real hooks built (`c= p= g= gb= ob= lim= lo= hi=`). The tokens go through
     the model parser over the regenerated grammar; its hook events are routed by the regenerated hook table
     to the model of the hooks; the clauses, projections, graphs, GROUP BY, ORDER BY, LIMIT and global bounds
-    that come out are compared with Go's. -/
+    that come out are compared with Go's. `X` lines (statements that change a store: `stmts` protocol) likewise:
+    statement type, graph names, input / output graphs, data triples, construct template, WHERE clauses, bounds. -/
 namespace Driver.Hooks
-open BW.Model BW.Model.Hooks BW.Generated Driver Driver.Query
+open BW.Model BW.Model.Hooks BW.Model.Stm BW.Generated Driver Driver.Query
 
 instance : BEq Proj := ⟨fun a b => a.binding == b.binding && a.alias == b.alias && a.op == b.op && a.distinct == b.distinct⟩
+
+instance : BEq POPair := ⟨fun a b => a.p == b.p && a.pID == b.pID && a.pBinding == b.pBinding && a.pAnchorBinding == b.pAnchorBinding &&
+  a.pTemporal == b.pTemporal && a.o == b.o && a.oID == b.oID && a.oBinding == b.oBinding && a.oAnchorBinding == b.oAnchorBinding &&
+  a.oTemporal == b.oTemporal⟩
+instance : BEq CClause := ⟨fun a b => a.s == b.s && a.sBinding == b.sBinding && a.pairs == b.pairs⟩
 
 def hkOf (name : String) : HK :=
   match name with
@@ -19,18 +26,23 @@ def hkOf (name : String) : HK :=
   | "LITERAL" => .literal | "AS" => .as_ | "TYPE" => .type_ | "ID" => .id_ | "AT" => .at_ | "OPTIONAL" => .optional
   | "LEFT_BRACKET" => .lbracket | "RIGHT_BRACKET" => .rbracket | "ASC" => .asc | "DESC" => .desc
   | "SUM" => .sum | "COUNT" => .count | "DISTINCT" => .distinct | "COMMA" => .comma | "BEFORE" => .before
-  | "AFTER" => .after | "BETWEEN" => .between | "TIME" => .time | "LIMIT" => .limit_ | _ => .other
+  | "AFTER" => .after | "BETWEEN" => .between | "TIME" => .time | "LIMIT" => .limit_ | "BLANK_NODE" => .blank | _ => .other
 
 def parseTok (s : String) : Option (Tok × HTk) :=
-  match s.splitOn "~" with
+  let parts := s.splitOn "~"
+  match parts.take 3 with
   | [ty, text, payload] => do
     let k ← Driver.Parse.tokByName ty
     let txt ← hexStr text
-    let base : HTk := { k := hkOf ty, text := txt }
+    -- a fourth field: `triple.ParseObject` of a PREDICATE token's text
+    let objp : Option Obj := match parts.drop 3 with
+      | [o] => if o = "bad" then none else parseObj (fields o)
+      | _ => none
+    let base : HTk := { k := hkOf ty, text := txt, obj := objp }
     let tk : HTk :=
       if payload = "-" || payload = "bad" then base else
       match hkOf ty with
-      | .node => match parseNode (fields payload) with
+      | .node | .blank => match parseNode (fields payload) with
         | some n => { base with node := some n, obj := some (.node n) }
         | none => base
       | .literal => { base with obj := parseObj (fields payload) }
@@ -65,6 +77,10 @@ def chEv : CHook → List HEv
   | .init => [.init]
   | .orderCheck => [.orderCheck]
   | .flushVars => [.flushVars]
+  | .bindType k => [.bindType k]
+  | .cInit => [.cInit]
+  | .cNext => [.cNext]
+  | .cPair => [.cPair]
   | .none => []
 
 /-- Parser events → what the WHERE hooks are handed. -/
@@ -72,7 +88,7 @@ def toHEvs : List (Ev Tok Sym (Tok × HTk)) → List HEv
   | [] => []
   | .start s _ :: es => chEv (startHook s) ++ toHEvs es
   | .fin s _ :: es => chEv (endHook s) ++ toHEvs es
-  | .elemTok s _ tok :: es => .tok (partOf s) tok.2 :: toHEvs es
+  | .elemTok s i tok :: es => .tok (partOf s i) tok.2 :: toHEvs es
   | _ :: es => toHEvs es
 
 def eofTk : Tok × HTk := (bql.eof, { k := .other })
@@ -102,6 +118,27 @@ def main : IO Unit := do
               (if hd.order == st.orderBy then [] else [s!"order-by model={repr hd.order}"]) ++
               (if hd.limit == st.limit then [] else [s!"limit model={repr hd.limit}"]) ++
               (if hd.lower == st.lower && hd.upper == st.upper then [] else [s!"bounds model={repr hd.lower},{repr hd.upper}"])
+            IO.println (if diffs.isEmpty then "same" else "differs " ++ " ".intercalate diffs)
+          | none => IO.println "model-rejects"
+        | none => IO.println "bad-op"
+      | _, _ => IO.println "-"
+    | "X" :: ws =>
+      -- a statement that changes a store (or a SELECT of the corpus), accepted by the real parser
+      match kv ws "tk", Driver.Stmts.parseDStmt ws with
+      | some tk, some d =>
+        match listOf ";" parseTok tk with
+        | some toks =>
+          match builtOf toks with
+          | some (got, hd) =>
+            let diffs : List String :=
+              (if hd.kind == d.kind then [] else [s!"type model={repr hd.kind}"]) ++
+              (if hd.graphNames == d.graphNames then [] else [s!"graph-names model={repr hd.graphNames}"]) ++
+              (if hd.outputs == d.outputs then [] else [s!"output-graphs model={repr hd.outputs}"]) ++
+              (if hd.graphs == d.inputs then [] else [s!"input-graphs model={repr hd.graphs}"]) ++
+              (if hd.data == d.data then [] else [s!"data model={repr hd.data}"]) ++
+              (if hd.ccs == d.ccs then [] else [s!"template model={hd.ccs.length} clauses"]) ++
+              (if got == d.clauses then [] else [s!"clauses model={repr got}"]) ++
+              (if hd.lower == d.lower && hd.upper == d.upper then [] else [s!"bounds model={repr hd.lower},{repr hd.upper}"])
             IO.println (if diffs.isEmpty then "same" else "differs " ++ " ".intercalate diffs)
           | none => IO.println "model-rejects"
         | none => IO.println "bad-op"
